@@ -14,7 +14,7 @@ RULE = ('generated float models of depth <= 6 over the coverage-table operators 
         'calibration input x; the model is calibrated on x alone and both models are run on x.  Oracle: every dequantized output finite and '
         f'|deq(q) - f| <= {K_STEPS:g} output steps + alpha * A (alpha = {ALPHA:g} for 8-bit weights, {ALPHA_W4:g} for 4-bit weights), A = max '
         '|activation| of the float run; additionally an output whose float values spread over more than max(16 steps, 0.1 A) must not be '
-        'constant.  The first operator whose output leaves 25% of its own magnitude while its inputs are inside 5% is reported.  A model is admitted only if '
+        'constant.  An output beyond that bound is judged only if it is also beyond bound + 2 * delta, delta = the deviation the FLOAT model itself shows when noise of one quantization step (from its own ranges) is added to every tensor and constant (conditioning probe, 6 trials).  The first operator whose output leaves 25% of its own magnitude while its inputs are inside 5% is reported.  A model is admitted only if '
         'every float activation has non-zero range on x.  A unit is one (model, config, x); distinct by digest; non-trivial iff the model '
         'has >=2 operators and every output is integer-typed')
 ASSUMPTIONS = ['a model whose quantized bias saturates INT32/INT64 (bias/(input_scale*weight_scale) does not fit; permitted by C05) is not judged',
@@ -134,6 +134,31 @@ def bias_saturated(mo):
   return False
 
 
+BETA = 2.0
+PROBE_TRIALS = 6
+
+
+def conditioning_probe(spec, sig, x, f_outs, f_tens, act_bits, weight_bits, seed_material):
+  """How far the FLOAT network itself carries perturbations of quantization-step size: max |f_noisy - f| per output over
+  PROBE_TRIALS runs of the float model with U(-1/2, 1/2)-step noise added to every runtime tensor an operator reads (steps from the float
+  run's own ranges at `act_bits`) and to every float constant (`weight_bits`).  Independent of the quantizer: only the source
+  model and its float execution are used."""
+  steps = {}
+  for n, (det, v) in f_tens.items():
+    if v.dtype == np.float32 and v.size:
+      steps[n] = (max(float(np.max(v)), 0.0) - min(float(np.min(v)), 0.0)) / (2.0 ** act_bits - 1)
+  delta = {k: 0.0 for k in f_outs}
+  for trial in range(PROBE_TRIALS):
+    rng = np.random.default_rng([int(seed_material) & 0x7fffffff, trial])
+    noisy = models.noise_injected(spec.content, steps, weight_bits, rng, gamma=1.0, si=sig['subgraph'])
+    outs, _ = interp.float_run(noisy, sig, x, want_tensors=False)
+    for k in f_outs:
+      if k in outs and outs[k].shape == f_outs[k].shape:
+        d = np.abs(outs[k].astype(np.float64) - f_outs[k].astype(np.float64))
+        delta[k] = max(delta[k], float(np.max(d)) if d.size and np.all(np.isfinite(d)) else float('inf'))
+  return delta
+
+
 def evaluate(ctx, spec, src, run, sig, x, ref, weight_bits, act_bits, per_channel_weights, base, label):
   """Runs the quantized model on x inside ctx.risky and applies the C07 oracle.  Returns True when every output was integer."""
   f_outs, f_tens, A = ref
@@ -176,6 +201,22 @@ def evaluate(ctx, spec, src, run, sig, x, ref, weight_bits, act_bits, per_channe
       const = bool(v.size > 1 and np.all(v == v.reshape(-1)[0]))
       spread = float(np.max(refv) - np.min(refv)) if refv.size else 0.0
       degenerate = const and spread > max(K_STEPS * step, 0.1 * A) and len(sc) > 0
+      if err > bound and not degenerate:
+        # The fixed bound is exceeded: is this network simply ill-conditioned?  (e.g. a large-range tensor squashed by a fused
+        # RELU6 and multiplied up again).  The float model answers that by itself.
+        if 'delta' not in state:
+          try:
+            state['delta'] = conditioning_probe(spec, sig, x, f_outs, f_tens, act_bits, weight_bits,
+                                                int(common.digest([common.sha(spec.content), label])[:8], 16))
+          except Exception:  # pylint: disable=broad-except
+            state['delta'] = {}
+        dlt = state['delta'].get(k)
+        ctx.count('conditioning_probes')
+        if dlt is not None and err <= bound + BETA * dlt:
+          ctx.count('ill_conditioned_float_model_not_judged')
+          ctx.observe_max('probe_delta_over_A', dlt / A if A else 0.0)
+          continue
+        state['probe'] = dlt
       if err > bound or degenerate:
         zp = int(d['quantization_parameters']['zero_points'][0]) if len(sc) else None
         fb = first_bad_operator(src, f_tens, q_tens, A)
@@ -183,7 +224,8 @@ def evaluate(ctx, spec, src, run, sig, x, ref, weight_bits, act_bits, per_channe
                       dict(f, output_constant=const,
                            output_equals_zero_point=bool(const and zp is not None and int(v.reshape(-1)[0]) == zp),
                            first_bad_operator=fb, bmm_output_pinned_to_zero_point=bmm_output_pinned(src, f_tens, q_tens)),
-                      dict(base, output=k, err=err, bound=bound, A=A, step=step, err_steps=err / step if step else None, spread=spread))
+                      dict(base, output=k, err=err, bound=bound, A=A, step=step, err_steps=err / step if step else None, spread=spread,
+                           conditioning_probe_delta=state.get('probe')))
   from vf.run import abortinfo, driver
   info = {'recipe_label': label, 'recipe': run.recipe, 'ops': base.get('ops'), 'census': c01.int16_census(mo)}
   info['model_path'], info['feeds_path'] = abortinfo.save(os.path.join(driver.ROOT, '.work', 'risky'), run.out, {sig['key']: x})
